@@ -1475,20 +1475,29 @@ func c08Split(c *rt.Ctx, name string, encs *[]c08EncSite) {
 	}
 	total, threshold, secret := uints[0], uints[1], secrets[0]
 
-	// the map handed out with a nil error
+	// the map handed out with a nil error; when it is the result of an in-package helper (the share loop was
+	// extracted: `return evaluate(poly, total)` or `m, err := evaluate(..); if err != nil {..}; return m, nil`) the
+	// helper becomes the function whose loop is examined, its parameters stand for the arguments of the call
+	var ds c08Descent
+	ds.Outer = fn
 	var retMap ssa.Value
-	for _, r := range c08NilErrReturns(fn) {
-		if len(r.Vals) != 2 || r.Vals[0] == nil {
-			c.Bail("%s: unexpected results", an.FuncName(fn))
-		}
-		m := an.Resolve(r.Vals[0])
-		if retMap != nil && retMap != m {
-			c.Bail("%s: several result maps", an.FuncName(fn))
+	for {
+		m, why := c08SplitMap(fn)
+		if m == nil {
+			c.Bail("%s: %s", an.FuncName(fn), why)
 		}
 		retMap = m
-	}
-	if retMap == nil {
-		c.Bail("%s: no successful return found", an.FuncName(fn))
+		ex, isEx := m.(*ssa.Extract)
+		if !isEx || ex.Index != 0 || len(ds.Chain) >= 3 {
+			break
+		}
+		call, _ := ex.Tuple.(*ssa.Call)
+		h := c08InPkgCallee(call)
+		if h == nil || h == fn || h.Signature.Results().Len() != 2 {
+			break
+		}
+		ds.Chain = append(ds.Chain, call)
+		fn = h
 	}
 	if _, ok := retMap.(*ssa.MakeMap); !ok {
 		c.Bail("%s: the result map is not made in this function", an.FuncName(fn))
@@ -1518,13 +1527,107 @@ func c08Split(c *rt.Ctx, name string, encs *[]c08EncSite) {
 			c.Bail("%s: bls.SecretKey.Set: unexpected arity", an.FuncName(fn))
 		}
 		// (2) identifier = Itoa(share-loop counter + constant), values 1..total, share stored under it
-		c08SplitIDs(c, pre, fn, up, set, sf, total, threshold, encs)
+		c08SplitIDs(c, pre, fn, up, set, sf, total, threshold, encs, &ds)
 		// (3) polynomial: `threshold` coefficients, constant term the secret, never overwritten
-		c08SplitPoly(c, pre, fn, set, sf, total, threshold, secret)
+		c08SplitPoly(c, pre, fn, set, sf, total, threshold, secret, &ds)
 	}
 }
 
-func c08SplitIDs(c *rt.Ctx, pre string, fn *ssa.Function, up *ssa.MapUpdate, set *ssa.Call, sf *c08Frame, total, threshold *ssa.Parameter, encs *[]c08EncSite) {
+// c08Descent: the share loop of a split function lives in an in-package helper whose results the split function hands
+// out. Chain lists the calls from the split function (Outer) inwards; the function examined is the callee of the last.
+type c08Descent struct {
+	Outer *ssa.Function
+	Chain []*ssa.Call
+}
+
+// fnAt: the function at level i (0: Outer, len(Chain): the function with the share loop).
+func (d *c08Descent) fnAt(i int) *ssa.Function {
+	if i == 0 {
+		return d.Outer
+	}
+	return d.Chain[i-1].Call.StaticCallee()
+}
+
+// bind maps a value of the function at `level` (frame nil) that is one of its parameters to the argument of the call,
+// outwards as far as possible; returns the value and the level it lives at.
+func (d *c08Descent) bind(v c08Val, level int) (c08Val, int) {
+	for level > 0 && v.F == nil {
+		p, ok := v.V.(*ssa.Parameter)
+		if !ok || p.Parent() != d.fnAt(level) {
+			break
+		}
+		call := d.Chain[level-1]
+		idx := c08ParamIndex(p)
+		if idx < 0 || idx >= len(call.Call.Args) {
+			break
+		}
+		v = c08Lift(call.Call.Args[idx], nil)
+		level--
+	}
+	return v, level
+}
+
+// top: v (function with the share loop, frame nil) as a value of Outer, if it is one.
+func (d *c08Descent) top(v c08Val) c08Val {
+	b, lvl := d.bind(v, len(d.Chain))
+	if lvl != 0 {
+		return v
+	}
+	return b
+}
+
+// c08SplitMap: the map fn hands out on success: the first result of every return that commits a nil error, or of the
+// returns that hand out the results of one in-package call unchanged (`return h(..)`: the map counts on h's nil edge).
+func c08SplitMap(fn *ssa.Function) (ssa.Value, string) {
+	var retMap ssa.Value
+	note := func(m ssa.Value) bool {
+		m = an.Resolve(m)
+		if retMap != nil && retMap != m {
+			return false
+		}
+		retMap = m
+		return true
+	}
+	for _, r := range c08NilErrReturns(fn) {
+		if len(r.Vals) != 2 || r.Vals[0] == nil {
+			return nil, "unexpected results"
+		}
+		if ex, ok := an.Resolve(r.Vals[0]).(*ssa.Extract); ok {
+			// results of a helper: its error must have been seen nil before its map is handed out
+			if call, ok := ex.Tuple.(*ssa.Call); ok && c08InPkgCallee(call) != nil {
+				if st, _ := c08Checked(call, r.Ret); st != "ok" {
+					return nil, "the map of " + an.CalleeName(&call.Call) + " is handed out without its error having been checked"
+				}
+			}
+		}
+		if !note(r.Vals[0]) {
+			return nil, "several result maps"
+		}
+	}
+	for _, r := range c08Returns(fn) {
+		if len(r.Vals) != 2 || r.Vals[0] == nil || r.Vals[1] == nil {
+			continue
+		}
+		m, mok := an.Resolve(r.Vals[0]).(*ssa.Extract)
+		e, eok := an.Resolve(r.Vals[1]).(*ssa.Extract)
+		if !mok || !eok || m.Tuple != e.Tuple || m.Index != 0 || e.Index != 1 {
+			continue
+		}
+		call, _ := m.Tuple.(*ssa.Call)
+		if c08InPkgCallee(call) == nil {
+			continue
+		}
+		if !note(m) {
+			return nil, "several result maps"
+		}
+	}
+	if retMap == nil {
+		return nil, "no successful return found"
+	}
+	return retMap, ""
+}
+
+func c08SplitIDs(c *rt.Ctx, pre string, fn *ssa.Function, up *ssa.MapUpdate, set *ssa.Call, sf *c08Frame, total, threshold *ssa.Parameter, encs *[]c08EncSite, ds *c08Descent) {
 	cons := pre + "identifier is the loop variable"
 	x, ok := c08DecID(c, cons, set.Call.Args[2], set, sf, encs)
 	if !ok {
@@ -1573,6 +1676,14 @@ func c08SplitIDs(c *rt.Ctx, pre string, fn *ssa.Function, up *ssa.MapUpdate, set
 		c.Unsure(pre+"identifiers run to total", ct.Phi.Pos(), "the condition of the share loop is not understood")
 	} else {
 		tot, thr := c08Val{V: total}, c08Val{V: threshold}
+		if !rng.Hi.isConst() {
+			rng.Hi.Base = ds.top(rng.Hi.Base) // the bound as a value of the split function
+		}
+		if !rng.Lo.isConst() {
+			if k, isK := an.ConstInt(ds.top(rng.Lo.Base).V); isK { // a start value handed in as a constant argument
+				rng.Lo = c08Lin{K: rng.Lo.K + k}
+			}
+		}
 		switch {
 		case rng.Lo.isConst() && rng.Lo.K == 1:
 			c.Good(pre+"identifiers start at 1", ct.Phi.Pos(), "")
@@ -1690,12 +1801,30 @@ func c08NonZeroAt(fn *ssa.Function, idx ssa.Value, at ssa.Instruction) (nonZero,
 	return false, false
 }
 
-func c08SplitPoly(c *rt.Ctx, pre string, fn *ssa.Function, set *ssa.Call, sf *c08Frame, total, threshold, secret *ssa.Parameter) {
+func c08SplitPoly(c *rt.Ctx, pre string, fn *ssa.Function, set *ssa.Call, sf *c08Frame, total, threshold, secret *ssa.Parameter, ds *c08Descent) {
 	poly := c08Lift(set.Call.Args[1], sf)
 	// the instruction of the anchor function at which the polynomial is consumed
 	var consume ssa.Instruction = set
 	for f := sf; f != nil; f = f.up {
 		consume = f.call
+	}
+	// the share loop lives in a helper that receives the polynomial: the polynomial is examined in the function that
+	// makes it, where it is consumed by the call leading to the helper
+	level := len(ds.Chain)
+	if poly.F == nil {
+		if b, lvl := ds.bind(poly, level); lvl < level {
+			poly, level, fn, consume = b, lvl, ds.fnAt(lvl), ds.Chain[lvl]
+		}
+	}
+	// values of the function that makes the polynomial, as values of the split function
+	outer := func(v c08Val) c08Val {
+		if v.F != nil {
+			return v
+		}
+		if b, lvl := ds.bind(v, level); lvl == 0 {
+			return b
+		}
+		return c08Val{}
 	}
 	mk, ok := poly.V.(*ssa.MakeSlice)
 	if !ok || poly.F != nil || mk.Parent() != fn {
@@ -1703,7 +1832,17 @@ func c08SplitPoly(c *rt.Ctx, pre string, fn *ssa.Function, set *ssa.Call, sf *c0
 		return
 	}
 	ln := c08LinOf(mk.Len, nil)
+	lenKnown := true
+	if !ln.isConst() {
+		if b := outer(ln.Base); b.V != nil {
+			ln.Base = b
+		} else {
+			lenKnown = false
+		}
+	}
 	switch {
+	case !lenKnown:
+		c.Unsure(pre+"polynomial has threshold coefficients", mk.Pos(), "cannot relate the polynomial length to the parameters of the split function")
 	case !ln.isConst() && ln.Base.V == ssa.Value(threshold) && ln.K == 0:
 		c.Good(pre+"polynomial has threshold coefficients", mk.Pos(), "")
 	case !ln.isConst() && ln.Base.V == ssa.Value(total):
@@ -1784,9 +1923,14 @@ func c08SplitPoly(c *rt.Ctx, pre string, fn *ssa.Function, set *ssa.Call, sf *c0
 			continue
 		}
 		src, full, ok := c08BytesSrc(res.P.W.Call.Args[1], res.P.F)
+		if ok {
+			src = outer(src)
+		}
 		switch {
 		case !ok:
 			c.Unsure(cons, st.Pos(), "cannot resolve the bytes poly[0] is deserialised from")
+		case src.V == nil:
+			c.Unsure(cons, st.Pos(), "cannot relate the bytes poly[0] is deserialised from to the parameters of the split function")
 		case src.F == nil && src.V == ssa.Value(secret) && full && an.Dominates(st, consume):
 			c.Good(cons, st.Pos(), "")
 			s0 = st
@@ -3065,42 +3209,41 @@ func c08ZeroSig(c *rt.Ctx) {
 		c.Bail("expected exactly one call leading to tbls.Verify in %s, found %d", an.FuncName(fn), len(sinks))
 	}
 	tv := sinks[0]
-	isZero := func(v ssa.Value) bool {
-		if k, ok := v.(*ssa.Const); ok {
-			return k.Value == nil
+	// what is decided once the signature is all zero: comparisons of the parameter with the zero value, and the boolean
+	// results of in-package predicates that receive it (`isZeroSignature(signature)`)
+	known := c08ZeroKnown(fn, sigP, 0)
+	env := func(v ssa.Value) (constant.Value, bool) {
+		if b, ok := known[v]; ok {
+			return constant.MakeBool(b), true
 		}
-		if al := c08LoadOf(v); al != nil { // `var zeroSig T` kept in memory and never assigned
-			l := c08LocalOf(al, 0)
-			return l.defs() == 0 && len(l.Unknown) == 0
-		}
-		return false
+		return nil, false
 	}
 	found := false
 	seen := false
 	unsureWhy := ""
 	why := "no comparison of the signature parameter with the zero signature guards tbls.Verify"
-	for _, cd := range an.CondsOn(fn, sigP) {
-		if cd.Other == nil || !isZero(cd.Other) || (cd.Op != token.EQL && cd.Op != token.NEQ) {
+	for _, b := range fn.Blocks {
+		if len(b.Instrs) == 0 {
 			continue
+		}
+		iff, ok := b.Instrs[len(b.Instrs)-1].(*ssa.If)
+		if !ok {
+			continue
+		}
+		if k, ok := an.H06Eval(iff.Cond, env); !ok || k.Kind() != constant.Bool {
+			continue // not a test that the zero signature decides
 		}
 		seen = true
 		// under signature == zero no path leads to tbls.Verify, and no path leads to a return that may carry nil
-		eqTrue := cd.Holds(cd.Op == token.EQL) // truth of the If condition when the signature is zero
-		env := func(v ssa.Value) (constant.Value, bool) {
-			if v == cd.If.Cond {
-				return constant.MakeBool(eqTrue), true
-			}
-			return nil, false
-		}
-		if !an.Dominates(cd.If, tv) {
+		if !an.Dominates(iff, tv) {
 			why = "the zero-signature test does not precede tbls.Verify on every path"
 			continue
 		}
-		if _, reach := an.H06Escape(cd.If, an.H06Opt{Env: env, Target: tv, Inclusive: true}); reach {
+		if _, reach := an.H06Escape(iff, an.H06Opt{Env: env, Target: tv, Inclusive: true}); reach {
 			why = "tbls.Verify is still reached when the signature is all zero"
 			continue
 		}
-		if _, definite, nilRet := c08NilReturnPath(fn, cd.If, true, env, nil); nilRet && definite {
+		if _, definite, nilRet := c08NilReturnPath(fn, iff, true, env, nil); nilRet && definite {
 			why = "the zero-signature edge can return a nil error"
 			continue
 		} else if nilRet {
@@ -3142,4 +3285,157 @@ func c08ZeroSig(c *rt.Ctx) {
 			c.Bad(cons, tv.Pos(), why)
 		}
 	}
+}
+
+// c08IsZeroValue: v is the zero value of its type: the zero constant, a composite literal without elements or a
+// `var zero T` that is never assigned.
+func c08IsZeroValue(v ssa.Value) bool {
+	v = an.Unwrap(v)
+	if k, ok := v.(*ssa.Const); ok {
+		return k.Value == nil
+	}
+	if al := c08LoadOf(v); al != nil { // kept in memory and never assigned
+		l := c08LocalOf(al, 0)
+		return l.defs() == 0 && len(l.Unknown) == 0
+	}
+	return false
+}
+
+// c08ZeroKnown: the boolean values of g that are decided when value p (a parameter of a fixed-size array type) is the
+// zero value of its type, with their truth: `p == T{}` / `p != zero` (either order, through value-preserving type
+// changes), bytes.Equal(p[:], zero[:]), and the result of an in-package predicate that receives p and whose every
+// return is decided the same way by what is known inside it.
+func c08ZeroKnown(g *ssa.Function, p ssa.Value, d int) map[ssa.Value]bool {
+	known := map[ssa.Value]bool{}
+	isP := func(v ssa.Value) bool { return v == p || an.Unwrap(v) == p || c08Resolve(v) == p }
+	// p[:]: a slice of the whole of the variable that holds nothing but p
+	sliceOf := func(v ssa.Value, pred func(al *ssa.Alloc) bool) bool {
+		sl, ok := an.Unwrap(v).(*ssa.Slice)
+		if !ok || sl.Low != nil || sl.High != nil || sl.Max != nil {
+			return false
+		}
+		al, ok := sl.X.(*ssa.Alloc)
+		return ok && pred(al)
+	}
+	// the stores into a variable that is otherwise only read (loads, whole slices handed to bytes.Equal)
+	storesOf := func(al *ssa.Alloc) (vals []ssa.Value, ok bool) {
+		for _, ref := range *al.Referrers() {
+			switch x := ref.(type) {
+			case *ssa.DebugRef:
+			case *ssa.UnOp:
+				if x.Op != token.MUL {
+					return nil, false
+				}
+			case *ssa.Store:
+				if x.Addr != ssa.Value(al) || x.Val == ssa.Value(al) {
+					return nil, false
+				}
+				vals = append(vals, x.Val)
+			case *ssa.Slice:
+				for _, r2 := range *x.Referrers() {
+					if call, isCall := r2.(*ssa.Call); isCall && an.CalleeName(&call.Call) == "bytes.Equal" {
+						continue
+					}
+					if _, dbg := r2.(*ssa.DebugRef); !dbg {
+						return nil, false
+					}
+				}
+			default:
+				return nil, false
+			}
+		}
+		return vals, true
+	}
+	holdsP := func(al *ssa.Alloc) bool {
+		vals, ok := storesOf(al)
+		return ok && len(vals) == 1 && isP(vals[0])
+	}
+	holdsZero := func(al *ssa.Alloc) bool {
+		vals, ok := storesOf(al)
+		if !ok {
+			return false
+		}
+		for _, v := range vals {
+			if !c08IsZeroValue(v) {
+				return false
+			}
+		}
+		return true
+	}
+	for _, in := range an.Instrs(g, false) {
+		switch x := in.(type) {
+		case *ssa.BinOp:
+			if x.Op != token.EQL && x.Op != token.NEQ {
+				continue
+			}
+			if (isP(x.X) && c08IsZeroValue(x.Y)) || (isP(x.Y) && c08IsZeroValue(x.X)) {
+				known[x] = x.Op == token.EQL
+			}
+		case *ssa.Call:
+			if an.CalleeName(&x.Call) == "bytes.Equal" && len(x.Call.Args) == 2 {
+				a, b := x.Call.Args[0], x.Call.Args[1]
+				if (sliceOf(a, holdsP) && sliceOf(b, holdsZero)) || (sliceOf(b, holdsP) && sliceOf(a, holdsZero)) {
+					known[x] = true
+				}
+				continue
+			}
+			h := c08InPkgCallee(x)
+			if h == nil || h == g || d > 2 || h.Signature.Results().Len() != 1 {
+				continue
+			}
+			if bt, ok := h.Signature.Results().At(0).Type().Underlying().(*types.Basic); !ok || bt.Kind() != types.Bool {
+				continue
+			}
+			for i, a := range x.Call.Args {
+				if !isP(a) || i >= len(h.Params) {
+					continue
+				}
+				if truth, ok := c08ZeroVerdict(h, h.Params[i], d+1); ok {
+					known[x] = truth
+				}
+			}
+		}
+	}
+	return known
+}
+
+// c08ZeroVerdict: predicate h returns the same boolean on every path that is feasible when its parameter p is zero.
+func c08ZeroVerdict(h *ssa.Function, p *ssa.Parameter, d int) (truth, ok bool) {
+	known := c08ZeroKnown(h, p, d)
+	if len(known) == 0 || len(h.Blocks) == 0 || len(h.Blocks[0].Instrs) == 0 || h.Recover != nil {
+		return false, false
+	}
+	env := func(v ssa.Value) (constant.Value, bool) {
+		if b, ok := known[v]; ok {
+			return constant.MakeBool(b), true
+		}
+		return nil, false
+	}
+	n, undecided := 0, false
+	var verdict bool
+	an.H06Escape(h.Blocks[0].Instrs[0], an.H06Opt{
+		Env:       env,
+		Inclusive: true,
+		ReturnOK: func(r *ssa.Return, kn an.H06Env) bool {
+			if len(r.Results) != 1 {
+				undecided = true
+				return true
+			}
+			k, ok := an.H06Eval(r.Results[0], kn)
+			if !ok || k.Kind() != constant.Bool {
+				undecided = true
+				return true
+			}
+			if n > 0 && verdict != constant.BoolVal(k) {
+				undecided = true
+			}
+			verdict = constant.BoolVal(k)
+			n++
+			return true // keep searching: every feasible return is visited
+		},
+	})
+	if undecided || n == 0 {
+		return false, false
+	}
+	return verdict, true
 }
